@@ -6,7 +6,8 @@ package c05
 import (
 	"github.com/mimecast/dtail/internal/io/dlog"
 	"github.com/mimecast/dtail/internal/mapr"
-	"github.com/mimecast/dtail/internal/mapr/client"
+	chandlers "github.com/mimecast/dtail/internal/clients/handlers"
+	shandlers "github.com/mimecast/dtail/internal/server/handlers"
 	"github.com/mimecast/dtail/internal/mapr/server"
 	"github.com/mimecast/dtail/internal/source"
 	"github.com/mimecast/dtail/internal/verifrt"
@@ -33,10 +34,18 @@ func evaluate(q *mapr.Query, queryStr string, servers [][][]string) map[string]*
 	for si, batches := range servers {
 		msgs, err := server.VerifAggregate(queryStr, batches)
 		verifrt.Assert(err == nil, "server side query rejected")
-		agg := client.NewAggregate("srv"+string(rune('0'+si)), q, global)
+		// each message travels as the server frames it (baseHandler.Read: AGGREGATE|host|payload + delimiter)
+		// through a transport read buffer into the client's mapreduce handler (MaprHandler.Write)
+		sh := shandlers.VerifNewServerHandler(false, true, false, 2, 2)
+		ch := chandlers.NewMaprHandler("srv"+string(rune('0'+si)), q, global)
+		p := make([]byte, 4096)
 		for _, batch := range msgs {
 			for _, m := range batch {
-				agg.Aggregate(m) // a message of a set without any value is refused with an error: it carries no data
+				sh.VerifMaprMessages() <- m
+				for first := true; first || sh.VerifPending() > 0; first = false {
+					n, _ := sh.Read(p)
+					ch.Write(p[:n]) // a message of a set without any value is refused by the client: it carries no data
+				}
 			}
 		}
 	}
@@ -81,9 +90,10 @@ func VerifC05eFormats(t, op, format, wiring int) {
 }
 
 func c05Run(t, op, where, wiring int, refOnly bool) {
-	// where: 0 none, 1 "where x > 3", 2 none but grouped by two fields (g,h), h possibly absent
+	// where: 0 none, 1 "where x > 3", 2 none but grouped by two fields (g,h), h possibly absent, 3 none but grouped by $line
 	twoKeys := where == 2
-	if twoKeys {
+	byLine := where == 3 // grouped by $line: the group key is the whole line, field delimiters included
+	if twoKeys || byLine {
 		where = 0
 	}
 	dlog.VerifInstall(source.Client)
@@ -92,7 +102,9 @@ func c05Run(t, op, where, wiring int, refOnly bool) {
 	if where == 1 {
 		queryStr += "where x > 3 "
 	}
-	if twoKeys {
+	if byLine {
+		queryStr += "group by $line logformat " + c05Formats[c05Format]
+	} else if twoKeys {
 		queryStr += "group by g,h logformat " + c05Formats[c05Format]
 	} else {
 		queryStr += "group by g logformat " + c05Formats[c05Format]
@@ -154,6 +166,9 @@ func c05Run(t, op, where, wiring int, refOnly bool) {
 			if c05Format == 2 {
 				l.text = c05DefaultPrefix + l.text
 			}
+		}
+		if byLine {
+			l.key = l.text
 		}
 		all = append(all, l.text)
 		if l.part {
